@@ -47,12 +47,22 @@ def dkey(framing, o):
     return key
 
 
-def feed(framing, d, chunks, units, single):
+def feed(framing, d, chunks, units, single, recycle=False):
+    """recycle: the caller reads into ONE bytearray (recv_into style) and hands that same object to the framer for every chunk -
+    after a call returns, the buffer belongs to the caller again and is overwritten by the next read"""
     fr = new_framer(framing, d)
     out, excs = [], []
+    buf = bytearray()
     for c in chunks:
         try:
-            fr.processIncomingPacket(c, out.append, units, single=single)
+            if recycle:
+                try:
+                    buf[:] = c
+                except BufferError:          # somebody still holds a view of the caller's buffer
+                    buf = bytearray(c)
+                fr.processIncomingPacket(buf, out.append, units, single=single)
+            else:
+                fr.processIncomingPacket(c, out.append, units, single=single)
         except Exception as e:  # noqa
             excs.append(e)
     return [dkey(framing, o) for o in out], excs, out
@@ -132,7 +142,7 @@ def check(run, case):
         return None
     pts = [0] + list(cuts) + [len(stream)]
     chunks = [stream[a:b] for a, b in zip(pts, pts[1:])]
-    got, excs, objs = feed(framing, d, chunks, units, single)
+    got, excs, objs = feed(framing, d, chunks, units, single, recycle=bool(case.get('recycle')))
     regs, first_bad = regions(framing, bounds, cuts, len(stream))
     for slug in regs:
         run.region(slug)
@@ -270,6 +280,9 @@ def run(run):
 
 def one(run, framing, d, msgs, cuts, bounds, n, single=True, sample_class=None):
     case = {'framing': framing, 'dir': d, 'msgs': msgs, 'cuts': list(cuts), 'single': single}
+    if (len(cuts) + len(msgs)) % 4 == 1:
+        case['recycle'] = True            # the chunks arrive in one bytearray the caller reuses for every read
+        run.count('recycled_buffer_chunkings')
     res = check(run, case)
     if res is None:
         return
